@@ -7857,9 +7857,12 @@ class SFTPServer:
             mapped_newdir = self.map_path(newdir)
             abspath2 = os.path.join(mapped_newdir, oldpath)
 
-            # Make sure the symlink doesn't point outside the chroot
+            # Make sure the symlink doesn't point outside the chroot. The
+            # new target is relative to where the link really ends up,
+            # which differs from newdir if that goes through a symlink
             if os.path.realpath(abspath1) != os.path.realpath(abspath2):
-                oldpath = os.path.relpath(abspath1, start=mapped_newdir)
+                oldpath = os.path.relpath(
+                    abspath1, start=os.path.realpath(mapped_newdir))
 
         newpath = self.map_path(newpath)
 
